@@ -1,5 +1,6 @@
 SPECIFICATION Spec
 CONSTANT N = 2
+CONSTANT WithKeyref = TRUE
 INVARIANT WalkBounded
 INVARIANT EmitInv
 CHECK_DEADLOCK FALSE
